@@ -600,3 +600,33 @@ contract('gnpy.topology.spectrum_assignment.compute_n_m',
          # bounded/nm_requests.py checks it on service documents)
          use_at_calls=False, modifies=[], max_paths=3000, timeout_s=40,
          hints=['rq.N[0] - rq.M[0] - oms_list[0].spectrum_bitmap.n_min', 'rq.N[0] - oms_list[0].spectrum_bitmap.n_min'])
+
+# ---- OMS bookkeeping (C14, C15): elements recorded in order with their uid, services and channel count accumulated
+_OMS_EL = obj('OMS', oms_id=integer(), el_id_list=lst(string(), string()), el_list=lst(obj('Roadm', uid=string()), obj('Edfa', uid=string())))
+contract('gnpy.topology.spectrum_assignment.OMS.add_element', props=['C15'],
+         params={'self': _OMS_EL, 'elem': obj('Fiber', uid=string())},
+         ensures=[('appended_last', 'len(self.el_list) == 3 and self.el_list[2] is elem and len(self.el_id_list) == 3 and self.el_id_list[2] == elem.uid'),
+                  ('earlier_elements_kept', 'self.el_list[0] is old(self.el_list[0]) and self.el_list[1] is old(self.el_list[1]) and '
+                                            'self.el_id_list[0] == old(self.el_id_list[0]) and self.el_id_list[1] == old(self.el_id_list[1])')],
+         modifies=['self.el_list[*]', 'self.el_id_list[*]'], use_at_calls=False)
+contract('gnpy.topology.spectrum_assignment.OMS.add_service', props=['C14'],
+         params={'self': obj('OMS', oms_id=integer(), service_list=lst(string()), nb_channels=integer()), 'service_id': string(), 'nb_wl': integer()},
+         ensures=[('service_recorded_once', 'len(self.service_list) == 2 and self.service_list[1] == service_id and self.service_list[0] == old(self.service_list[0])'),
+                  ('channels_added', 'self.nb_channels == old(self.nb_channels) + nb_wl')],
+         modifies=['self.service_list[*]', 'self.nb_channels'], use_at_calls=False)
+contract('gnpy.topology.spectrum_assignment.OMS.update_spectrum', name='gnpy.topology.spectrum_assignment.OMS.update_spectrum[fresh map]', props=['C15'],
+         params={'self': obj('OMS', oms_id=integer(), spectrum_bitmap=lst()), 'f_min': real(), 'f_max': real(), 'guardband': real(),
+                 'existing_spectrum': const(None), 'grid': real()}, spec=SPEC_BM,
+         requires=[('grid', 'grid > 0'), ('ordered', 'f_min <= f_max')],
+         let={'b': 'self.spectrum_bitmap'},
+         ensures=[('covers_the_band', 'b.n_min == frequency_to_n(f_min, grid) and b.n_max == frequency_to_n(f_max, grid)'),
+                  ('wf', 'WF(b)'), ('indices', 'WFI(b)'), ('all_free', 'forall(lambda k: b.bitmap[k] == BitmapValue.FREE, len(b.bitmap))')],
+         modifies=['self.spectrum_bitmap'], use_at_calls=False)
+contract('gnpy.topology.spectrum_assignment.build_path_oms_id_list', props=['C14'],
+         params={'pth': lst(obj('Transceiver', uid=string()), obj('Roadm', uid=string()), obj('Edfa', uid=string(), oms_id=integer()),
+                            obj('Fiber', uid=string(), oms_id=integer()), obj('Roadm', uid=string()), obj('Fused', uid=string(), oms_id=integer()),
+                            obj('Transceiver', uid=string()))},
+         # every OMS a line element of the path belongs to, nothing else (ROADMs and transceivers carry no OMS)
+         ensures=[('every_line_element_oms', 'pth[2].oms_id in result and pth[3].oms_id in result and pth[5].oms_id in result'),
+                  ('nothing_else', 'all(x == pth[2].oms_id or x == pth[3].oms_id or x == pth[5].oms_id for x in result)')],
+         use_at_calls=False, modifies=[])
